@@ -87,6 +87,7 @@ class Effects:
         self.ctx, self.py, self.fn, self.eff = ctx, py, fn, eff
         self.receivers, self.local_defs, self.thunk_eff = receivers, local_defs, thunk_eff
         self._def_cache = {}
+        self.delta = delta_builder(fn, local_defs, receivers)
 
     def length_of(self, e, lenmap) -> Lin:
         if isinstance(e, ast.Dict):
@@ -98,10 +99,12 @@ class Effects:
             return Lin(e.args[0].value)
         if isinstance(e, ast.Call) and isinstance(e.func, ast.Name) and e.func.id in ('reversed', 'list', 'tuple', 'sorted') and len(e.args) == 1:
             return self.length_of(e.args[0], lenmap)
-        if isinstance(e, ast.Call) and isinstance(e.func, ast.Name) and e.func.id == 'get_delta' and len(e.args) == 1:
+        if isinstance(e, ast.Call) and isinstance(e.func, ast.Name) and e.func.id == self.delta and len(e.args) == 1:
             return Lin(0, {ast.unparse(e.args[0]): 1})
         if isinstance(e, ast.Call) and isinstance(e.func, ast.Attribute) and e.func.attr in ('values', 'keys', 'items') and not e.args:
             return self.length_of(e.func.value, lenmap)
+        if isinstance(e, ast.Subscript) and isinstance(e.slice, ast.Slice) and e.slice.lower is None and e.slice.upper is None:
+            return self.length_of(e.value, lenmap)          # x[:] / x[::-1]: as long as x
         if isinstance(e, ast.Name) and e.id in lenmap:
             return lenmap[e.id]
         if isinstance(e, (ast.Attribute, ast.Name)):
@@ -120,7 +123,7 @@ class Effects:
                     out = out + self.length_of(node.args[1], lenmap).scale(s)
                 return out
             return Lin(0)
-        if isinstance(f, ast.Name) and f.id in self.local_defs and f.id != 'get_delta':
+        if isinstance(f, ast.Name) and f.id in self.local_defs and f.id != self.delta:
             return self.local_def(f.id)
         if isinstance(f, ast.Call) and isinstance(f.func, ast.Attribute) and f.func.attr in self.thunk_eff \
                 and len(node.args) == 1 and ast.unparse(node.args[0]) in self.receivers:
@@ -169,10 +172,13 @@ class Effects:
             for nm in set.intersection(*appended) if appended else ():
                 lenmap[nm] = Lin(0, {atom: 1})
             return next(iter(effs.values())).times_len(atom)
-        if isinstance(st, ast.Assign) and isinstance(st.value, (ast.List, ast.Tuple)) and not st.value.elts:
-            for t in st.targets:
+        if isinstance(st, (ast.Assign, ast.AnnAssign)) and isinstance(st.value, (ast.List, ast.Tuple)) and not st.value.elts:
+            for t in (st.targets if isinstance(st, ast.Assign) else [st.target]):
                 if isinstance(t, ast.Name):
                     lenmap[t.id] = Lin(0)
+        if isinstance(st, ast.Assign) and len(st.targets) == 1 and isinstance(st.targets[0], ast.Name) and isinstance(st.value, ast.Call) \
+                and isinstance(st.value.func, ast.Name) and st.value.func.id == self.delta and self.delta is not None:
+            lenmap[st.targets[0].id] = self.length_of(st.value, lenmap)
         total = Lin(0)
         for n in _own(st):
             if isinstance(n, ast.Call):
@@ -212,6 +218,46 @@ def unify_mm(term, schema, out):
     return False
 
 
+def accessors(fn, INTERP):
+    """(receivers, stack accessors): the interpreter parameter and local zero-argument lambdas returning it; local zero-argument
+    lambdas returning `<x>.stack`, bound directly or through a local parameterless function every return of which is such a lambda"""
+    receivers = {INTERP}
+    stack_fns = set()
+    makers = {}
+    for g in fn.body:
+        if isinstance(g, ast.FunctionDef) and not g.args.args:
+            rets = [r for r in ast.walk(g) if isinstance(r, ast.Return)]
+            if rets and all(isinstance(r.value, ast.Lambda) and not r.value.args.args and ast.unparse(r.value.body).endswith('.stack') for r in rets):
+                makers[g.name] = g
+    for n in _own(fn):
+        if isinstance(n, ast.Assign) and isinstance(n.value, ast.Lambda) and not n.value.args.args and isinstance(n.targets[0], ast.Name):
+            body = ast.unparse(n.value.body)
+            if body == INTERP:
+                receivers.add(n.targets[0].id + '()')
+            elif body.endswith('.stack'):
+                stack_fns.add(n.targets[0].id + '()')
+        elif isinstance(n, ast.Assign) and isinstance(n.value, ast.Call) and isinstance(n.value.func, ast.Name) and n.value.func.id in makers \
+                and not n.value.args and isinstance(n.targets[0], ast.Name):
+            stack_fns.add(n.targets[0].id + '()')
+    return receivers, stack_fns
+
+
+def delta_builder(fn, local_defs, receivers):
+    """the local procedure that builds the instantiation map handed to instantiate / instantiate_pattern (identified by that use,
+    directly as the argument or through a local bound to its call), or None"""
+    names = set()
+    binds = {n.targets[0].id: n.value for n in _own(fn) if isinstance(n, ast.Assign) and len(n.targets) == 1 and isinstance(n.targets[0], ast.Name)}
+    for c in _own(fn):
+        if isinstance(c, ast.Call) and isinstance(c.func, ast.Attribute) and c.func.attr in ('instantiate', 'instantiate_pattern') \
+                and ast.unparse(c.func.value) in receivers and len(c.args) == 2:
+            a = c.args[1]
+            if isinstance(a, ast.Name) and a.id in binds:
+                a = binds[a.id]
+            if isinstance(a, ast.Call) and isinstance(a.func, ast.Name) and a.func.id in local_defs and len(a.args) == 1:
+                names.add(a.func.id)
+    return next(iter(names)) if len(names) == 1 else None
+
+
 def run(ctx):
     py = PyRepo.get()
     w = Wiring(py)
@@ -224,17 +270,8 @@ def run(ctx):
     eff = method_effects(py, w)
     ctx.require(all(m in eff for m in ('app', 'implies', 'metavar', 'instantiate', 'instantiate_pattern', 'prop1', 'prop2', 'modus_ponens',
                                        'save', 'load', 'pop', 'publish_proof')), 'tracker effects of the interpreter calls not derivable')
-    # receivers: the interpreter parameter and local zero-argument lambdas returning it
-    receivers = {INTERP}
-    stack_fns = set()
+    receivers, stack_fns = accessors(fn, INTERP)
     local_defs = {}
-    for n in _own(fn):
-        if isinstance(n, ast.Assign) and isinstance(n.value, ast.Lambda) and not n.value.args.args and isinstance(n.targets[0], ast.Name):
-            body = ast.unparse(n.value.body)
-            if body == INTERP:
-                receivers.add(n.targets[0].id + '()')
-            elif body.endswith('.stack'):
-                stack_fns.add(n.targets[0].id + '()')
     for n in fn.body:
         if isinstance(n, ast.FunctionDef):
             local_defs[n.name] = n
@@ -257,7 +294,7 @@ def run(ctx):
     loop = loops[0]
     LV = loop.target.id
     PROOF = ast.unparse(loop.iter)[:-len('.applied_lemmas')]
-    lab = [n for n in loop.body if isinstance(n, ast.Assign) and ast.unparse(n.value) == f'{PROOF}.labels[{LV}]']
+    lab = [n for st in loop.body for n in _own(st) if isinstance(n, ast.Assign) and ast.unparse(n.value) == f'{PROOF}.labels[{LV}]']
     ctx.require(len(lab) == 1 and isinstance(lab[0].targets[0], ast.Name), 'exec_proof: the label of the applied step is not looked up in `.labels`')
     LABEL = lab[0].targets[0].id
     MVO = f'{CONV}.get_metavars_in_order({LABEL})'
@@ -267,6 +304,7 @@ def run(ctx):
 
     n_paths = 0
     kinds_seen = set()
+    unclaimed = []
     for sp in astpaths.paths(loop.body):
         if sp.end == 'raise':
             continue
@@ -317,6 +355,12 @@ def run(ctx):
                                  'no error); such rules are outside the fragment C16 quantifies over')
                 kinds_seen.add('skipped-rule')
                 continue
+        if kind is None and f'{LV} in {PROOF}.labels' not in false and not any(
+                isinstance(n, ast.Call) and isinstance(n.func, ast.Attribute) and ast.unparse(n.func.value) in receivers
+                for a in sp.actions for n in _own(a)):
+            # a label no branch claimed, passed over without a call and without an error: rule dispatch-ends-raising below
+            unclaimed.append(sp)
+            continue
         if kind is None:
             ctx.require(False, f'exec_proof: a path of the replay loop could not be classified (conditions: {true[:4]} / not {false[:4]})')
         try:
@@ -337,10 +381,11 @@ def run(ctx):
     unknown = [sp for sp in astpaths.paths(loop.body)
                if sp.holds(f'{LV} in {PROOF}.labels') is not False
                and [c for c, b in sp.conds if c.startswith(f'{LABEL} in ')] and all(not b for c, b in sp.conds if c.startswith(f'{LABEL} in '))]
-    ctx.ob('dispatch-ends-raising', 'exec_proof', bool(unknown) and all(sp.end == 'raise' for sp in unknown),
+    ctx.ob('dispatch-ends-raising', 'exec_proof', bool(unknown) and all(sp.end == 'raise' for sp in unknown) and not unclaimed,
            'the label dispatch of exec_proof must end in a raising branch (an unrecognised label would otherwise be skipped)', where)
 
     operand_positions(ctx, py, fn, local_defs, theory, STACK, receivers, LABEL, loop)
+    antecedent_discharge(ctx, py, fn, loop, LABEL, CONV, STACK, receivers, local_defs)
     memory_map(ctx, py, loop, LV, PROOF, STACK, receivers)
     publication(ctx, py, fn, tail, CONV, TARGET, STACK, receivers)
     # the letters of a compressed proof number the target's mandatory hypotheses in database order (shared with C15): the replay
@@ -351,6 +396,7 @@ def run(ctx):
     ctx.require(ip is not None, 'anchor vanished: MetamathConverter._import_proof')
     c15.numbering(ctx, py, ip, conv)
     c15.label_tokens(ctx, py, ip)
+    c15.label_numbering(ctx, py, ip)
     floats_from_statement(ctx, py)
     application_fold_order(ctx, py)
     # the step numbers of a compressed proof are decoded by the converter (shared with C15): a wrong digit weight or traversal order
@@ -373,6 +419,94 @@ def run(ctx):
                        '(database order, C15) and the essential hypotheses are the antecedents',
                        'prelude statements as defined in generation/mm-benchmarks/*.mm (all databases agree up to variable names)',
                        'python ast; tracker effects as decided under C04']
+
+
+def antecedent_discharge(ctx, py, fn, loop, LABEL, CONV, STACK, receivers, local_defs):
+    """An axiom with essential hypotheses eh1 .. ehn is loaded as the implication eh1 -> (eh2 -> (.. -> concl))
+    (convert_to_implication folds from the right with the FIRST antecedent outermost).  Metamath pushed proofs of eh1 .. ehn in that
+    order, so the replay takes them off the top (ehn first), keeps each - saved under a name and remembered in a list - and after
+    loading / instantiating the axiom discharges them by modus ponens starting with eh1, i.e. in the REVERSE of the order in which
+    they were set aside.  Each remembered entry is the very proof that was on top of the stack, under the name it was saved by."""
+    where = py.where(TR, loop)
+    seen = set()
+    n = 0
+
+    def is_mp(c):
+        if isinstance(c, ast.Call) and isinstance(c.func, ast.Attribute) and c.func.attr == 'modus_ponens' and ast.unparse(c.func.value) in receivers:
+            return True
+        if isinstance(c, ast.Call) and isinstance(c.func, ast.Name) and c.func.id in local_defs:
+            return any(isinstance(x, ast.Call) and isinstance(x.func, ast.Attribute) and x.func.attr == 'modus_ponens'
+                       and ast.unparse(x.func.value) in receivers for x in ast.walk(local_defs[c.func.id]))
+        return False
+
+    def rcall(st, attr):
+        return [c for c in _own(st) if isinstance(c, ast.Call) and isinstance(c.func, ast.Attribute) and c.func.attr == attr
+                and ast.unparse(c.func.value) in receivers]
+
+    for sp in astpaths.paths(loop.body):
+        if sp.end == 'raise' or sp.holds(f'{LABEL} in {CONV}.exported_axioms') is not True:
+            continue
+        ants = [m.group(1) for c, b in sp.conds for m in [re.fullmatch(r'isinstance\((\w+), AxiomWithAntecedents\)', c)] if m and b]
+        if not ants:
+            continue
+        fors = [a for a in sp.actions if isinstance(a, ast.For)]
+        key = tuple(id(f) for f in fors)
+        if key in seen:
+            continue
+        seen.add(key)
+        n += 1
+        A = [f for f in fors if any(rcall(st, 'pop') for st in f.body)]
+        D = [f for f in fors if any(is_mp(c) for st in f.body for c in _own(st))]
+        probs = []
+        if len(A) != 1 or len(D) != 1 or A[0] is D[0]:
+            probs.append(f'expected one loop setting the antecedents aside and one loop discharging them, found {len(A)} and {len(D)}')
+        else:
+            a, d = A[0], D[0]
+            top = f'{STACK}[-1]'
+            if ast.unparse(a.iter) != f'{ants[0]}.antecedents':
+                probs.append(f'the antecedents are set aside by a loop over `{ast.unparse(a.iter)}`, not over `{ants[0]}.antecedents`')
+            appends = [c for st in a.body for c in _own(st) if isinstance(c, ast.Call) and isinstance(c.func, ast.Attribute) and c.func.attr == 'append'
+                       and isinstance(c.func.value, ast.Name) and len(c.args) == 1]
+            pops, saves = [c for st in a.body for c in rcall(st, 'pop')], [c for st in a.body for c in rcall(st, 'save')]
+            if len(appends) != 1 or len(pops) != 1 or len(saves) != 1:
+                probs.append('each iteration must remember, save and pop exactly one antecedent')
+            else:
+                def res(e):
+                    return ast.unparse(inline_locals(a.body, e))
+                ent = inline_locals(a.body, appends[0].args[0])
+                parts = [ast.unparse(x) for x in ent.elts] if isinstance(ent, ast.Tuple) else None
+                if parts != [f'str({top})', top]:
+                    probs.append(f'what is remembered is `{ast.unparse(ent)}`, not (str({top}), {top})')
+                if [res(x) for x in saves[0].args] != [f'str({top})', top]:
+                    probs.append(f'the antecedent is saved as `{", ".join(res(x) for x in saves[0].args)}`, not under its own text')
+                if [res(x) for x in pops[0].args] != [top]:
+                    probs.append(f'`{res(pops[0].args[0]) if pops[0].args else ""}` is popped, not the top of the stack')
+                def at(body, c):
+                    return next(i for i, st in enumerate(body) if any(c is x for x in _own(st)))
+                if not (at(a.body, appends[0]) <= at(a.body, pops[0]) and at(a.body, saves[0]) <= at(a.body, pops[0])):
+                    probs.append('the antecedent is popped before it is remembered and saved')
+                L = appends[0].func.value.id
+                it = ast.unparse(d.iter)
+                if it not in (f'reversed({L})', f'{L}[::-1]'):
+                    probs.append(f'the antecedents are discharged by a loop over `{it}`; they were set aside last-first, and the loaded '
+                                 f'implication has the FIRST antecedent outermost, so they must be taken in the order reversed({L})')
+                loads = [c for st in d.body for c in rcall(st, 'load')]
+                mps = [c for st in d.body for c in _own(st) if is_mp(c)]
+                if len(loads) != 1 or len(mps) != 1 or at(d.body, loads[0]) > at(d.body, mps[0]):
+                    probs.append('each discharge must load one remembered antecedent and then apply modus ponens once')
+                else:
+                    tg = d.target
+                    want = [ast.unparse(x) for x in tg.elts] if isinstance(tg, ast.Tuple) and len(tg.elts) == 2 else \
+                        ([f'{tg.id}[0]', f'{tg.id}[1]'] if isinstance(tg, ast.Name) else None)
+                    got = [ast.unparse(inline_locals(d.body, x)) for x in loads[0].args]
+                    if want is None or got != want:
+                        probs.append(f'load({", ".join(got)}) does not reload the remembered (name, proof) pair')
+                if not (sp.actions.index(a) < sp.actions.index(d)):
+                    probs.append('the discharge loop precedes the loop that sets the antecedents aside')
+        ctx.ob('operand-position', 'antecedent-discharge' + ('' if n == 1 else f'#{n}'), not probs,
+               'essential hypotheses of an axiom: ' + '; '.join(probs) + ' - the derived statement keeps undischarged (or wrongly ordered) '
+               'antecedents and is not the Metamath conclusion', where)
+    ctx.require(n >= 1, 'exec_proof: the branch replaying an axiom with essential hypotheses was not found')
 
 
 def application_fold_order(ctx, py):
@@ -777,8 +911,8 @@ def returned_exprs(fn):
 
 def operand_positions(ctx, py, fn, local_defs, theory, STACK, receivers, LABEL, loop):
     # (1) get_delta: the i-th floating hypothesis is read from slot -(n+1)+i, keyed by the metavariable it instantiates
-    gd = local_defs.get('get_delta')
-    ctx.require(gd is not None and len(gd.args.args) == 1, 'exec_proof: local get_delta(metavars) not found')
+    gd = local_defs.get(delta_builder(fn, local_defs, receivers))
+    ctx.require(gd is not None and len(gd.args.args) == 1, 'exec_proof: the local procedure building the instantiation map (get_delta) not found')
     MV = gd.args.args[0].arg
     env = {}
     for n in gd.body:
@@ -975,15 +1109,7 @@ def memory_map_standalone(ctx, py):
     fn = py.function(TR, 'exec_proof')
     params = [a.arg for a in fn.args.args]
     INTERP = params[3]
-    receivers = {INTERP}
-    stack_fns = set()
-    for n in _own(fn):
-        if isinstance(n, ast.Assign) and isinstance(n.value, ast.Lambda) and not n.value.args.args and isinstance(n.targets[0], ast.Name):
-            body = ast.unparse(n.value.body)
-            if body == INTERP:
-                receivers.add(n.targets[0].id + '()')
-            elif body.endswith('.stack'):
-                stack_fns.add(n.targets[0].id + '()')
+    receivers, stack_fns = accessors(fn, INTERP)
     loops = [n for n in fn.body if isinstance(n, ast.For) and ast.unparse(n.iter).endswith('.applied_lemmas')]
     ctx.require(len(loops) == 1 and stack_fns, 'exec_proof: replay loop not found')
     loop = loops[0]
